@@ -72,7 +72,9 @@ def gen_sched_case(rng, tier, kind=None, mode=None, static=False, many_to_one=No
         for k in range(1, n):
             if rng.random() < 0.2:
                 ts[k] = rng.choice(deps[:k])
-    wl = sorted([[ts[k], fl[k], sizes[k]] for k in range(n)], key=lambda x: x[0])
+    hop = rng.random() < 0.5
+    wl = sorted([[ts[k], fl[k], sizes[k], 0, None, rng.choice([0, 0, 1, 2, 3]) if hop else 0] for k in range(n)],
+                key=lambda x: x[0])
     case['workload'] = wl
     if rng.random() < 0.3:
         # a second, independent scheduler of the same kind in the same simulation, with the same class ids and its own
